@@ -32,7 +32,7 @@ def handleJsonVal : Handler := fun op args =>
   | "json.unmarshal", [tbl, j, t] => do
     let env ← decEnv tbl
     let j ← Json.ofSexp j; let t ← Ty.ofSexp t
-    pure (resTag (fun v => toString v.toSexp) (unmarshal env j t))
+    pure (resTag (fun v => toString v.toSexp) (unmarshalTop env j t))
   | "json.implied", [tbl, j] => do
     let env ← decEnv tbl
     let j ← Json.ofSexp j
